@@ -23,7 +23,11 @@ TraceReset ==
   /\ ss' = [x \in Sessions |-> "idle"] /\ closed' = [x \in Sessions |-> FALSE]
   /\ nh' = [x \in Sessions |-> "none"]
   /\ pull' = PullInit /\ clock' = 0 /\ nticks' = 0 /\ down' = FALSE /\ act' = [name |-> "init"]
+  /\ push' = [t \in PushTargets |-> "idle"] /\ patt' = 0
   /\ failed' = FALSE
+
+PushRest == patt' = patt /\ UNCHANGED <<grp, inp, owner, ss, closed, nh, pull, clock, nticks>>
+IsPushEv(n) == n \in {"PushOk", "PushFail", "PushEnd"}
 
 Do(name, e) ==
   CASE name = "NewPub"  -> NewPub(e.x)
@@ -44,6 +48,9 @@ Do(name, e) ==
     [] name = "PullEnd"   -> PullEnd
     [] name = "Advance"   -> Advance
     [] name = "Shutdown"  -> Shutdown
+    [] name = "PushOk"    -> PushOk(e.x) /\ PushRest
+    [] name = "PushFail"  -> PushFail(e.x) /\ PushRest
+    [] name = "PushEnd"   -> PushEnd(e.x) /\ PushRest
 
 \* C03 StatOnlyAttached: the stat API lists exactly the attached network / GB28181 input and the attached subscribers
 Listed(i, s) == (IF i \in NetPubs \cup PsPubs THEN {i} ELSE {}) \cup {x \in Subs : s[x] = "in"}
@@ -55,9 +62,12 @@ TraceStep ==
      IF failed THEN UNCHANGED vars /\ failed' = failed
      ELSE /\ Do(e.ev, e)
           /\ (e.ev # "Shutdown" => down' = down)
+          /\ ((~IsPushEv(e.ev) /\ e.ev # "Shutdown") => PushFx)
           /\ LET good == /\ act'.obs = e.obs
                          /\ ("pipe" \in DOMAIN e => e.pipe = (IF owner' = "" THEN <<>> ELSE PipeComps))
                          /\ ("filesOk" \in DOMAIN e => e.filesOk)
+                         /\ ("pa" \in DOMAIN e => e.pa = patt' /\ e.pn = NAtt(push'))   \* push attempts seen / sessions attached
+                         /\ ("plen" \in DOMAIN e => e.plen = act'.plen)                   \* URL parameters forwarded in full
                          /\ (("stat" \in DOMAIN e /\ ~down') =>     \* (after a shutdown the listing is moot)
                                /\ e.stat.exists = grp'
                                /\ (grp' => SeqSet(e.stat.listed) = Listed(inp', ss'))
